@@ -92,6 +92,10 @@ func VerifC16Reserved() {
 	npos := nd.Param("positions", 3)
 	item := map[string]*types.Item{"a": vItemS("x"), "m": {M: map[string]*types.Item{"k": vItemS("x")}}}
 	vals := map[string]*types.Item{":v": vItemS("x"), ":n": vItemN("1")}
+	// whether the item at hand happens to have an attribute of that very name makes no difference
+	if nd.Choice("item-has-the-word", 2) == 1 {
+		item[w] = vItemS("x")
+	}
 	if nd.Choice("grammar", 2) == 0 {
 		if npos > len(vCondPositions) {
 			npos = len(vCondPositions)
